@@ -106,3 +106,8 @@ def PartKeys(part, node):
 def all_lists(xs):
     """Every element of the sequence is a list."""
     return all(isinstance(x, list) for x in xs)
+
+
+def as_obj(x, cls):
+    """x, known to be an instance of cls (lets a contract read the attributes of an element of a sequence)."""
+    return x
